@@ -127,6 +127,9 @@ var bigLiteralRE = regexp.MustCompile(`[0-9]{7,}`)
 // templateFeature is the <class> part of template failures: the (at most two, alphabetically first)
 // functions called, else the kind of template.
 func templateFeature(tpl string) string {
+	if strings.Contains(tpl, "=>") {
+		return "tpl:anonymous-function"
+	}
 	seen := map[string]bool{}
 	names := []string{}
 	for _, m := range fnCallRE.FindAllStringSubmatch(tpl, -1) {
